@@ -57,6 +57,7 @@ ASSUMPTIONS = [
     "domains are NUL-free (as in C12)",
     "call ids are fresh per /init (os.urandom(16)): two streams never share a call id, so the call id inside an authenticated cursor token determines the /init that minted it",
     "cache invariant I (entries filed under a call id record the method that minted it) is established at the two put sites on this harness (O3) and used for the entries the receiving worker may hold; eviction/expiry of entries is C14's",
+    "the end-to-end harness takes non-empty domains and principals for authenticated identities (the empty-string corner cases of the identity encoding are C12.L2/L8's)",
     "the end-to-end harness runs with token_ttl > 0 (expiry configured); ttl = 0 only skips created_at bookkeeping",
     "tokens re-minted by later turns are not followed symbolically: they carry the call id of the cursor token that was opened (C12.O6/O6b)",
 ]
